@@ -1062,7 +1062,10 @@ def run_config(tape, ctx):
                         "rerun": tape.bool(0.3, "rerun"),
                         # the interpreter's own switches are environment too: -O strips `assert` statements,
                         # -X dev / warnings change nothing a generator may depend on
-                        "pyopt": tape.wpick([("", 5), ("1", 2), ("2", 1)], "PYTHONOPTIMIZE")}
+                        "pyopt": tape.wpick([("", 5), ("1", 2), ("2", 1)], "PYTHONOPTIMIZE"),
+                        # ... and so is the date: the same run tomorrow, next month, next year, at another hour
+                        "clock": tape.wpick([("", 3), ("86400", 1), ("2764800", 1), ("34304833", 2), ("-40000000", 1)],
+                                            "clock-shift")}
             confs.append(conf)
             cwd = [build, srcd, other, "/"][conf["cwd"]]
             outdir = os.path.join(tmp, "out%d" % ci)
@@ -1073,6 +1076,10 @@ def run_config(tape, ctx):
             if conf.get("pyopt"):
                 env["PYTHONOPTIMIZE"] = conf["pyopt"]
             env["PYTHONPATH"] = REPO
+            if conf.get("clock"):
+                env["PYTHONPATH"] = os.path.join(os.path.dirname(os.path.dirname(os.path.abspath(__file__))),
+                                                 "sim", "fakeclock") + os.pathsep + REPO
+                env["VERIF_FAKE_CLOCK_SHIFT"] = conf["clock"]
             env["PYTHONDONTWRITEBYTECODE"] = "1"
 
             def rel(p, _cwd=cwd):
